@@ -283,6 +283,13 @@ impl<C: Cfg> World<C> {
             if c != last_cap {
                 cap_changes += 1;
                 last_cap = c;
+                // far beyond any logarithmic bound already: stop (quadratic copying otherwise)
+                if cap_changes > 8 * k as u64 + 64 {
+                    self.nontrivial = true;
+                    self.class("amortisation");
+                    self.fail(MON_CAP, "amortisation:too-many-reallocations", format!("after {} of {} pushes the capacity already changed {} times; more than the logarithmic bound {}", i + 1, n, cap_changes, 4 * k as u64 + 8));
+                    return;
+                }
             }
         }
         let ev1 = alloc::events();
